@@ -270,5 +270,58 @@ theorem addHierarchy_spec (Q : Str → Prop) (g : PGraph Str) (parents : List St
 
 end
 
+/-! ### the repair of the level-limit defect: `skipImportEdge` -/
+
+theorem skipImportEdge_none (known : List Str) (i : ImportRec) : skipImportEdge none known i = false := rfl
+
+theorem skipImportEdge_some (k : Nat) (known : List Str) (i : ImportRec) :
+    skipImportEdge (some k) known i = false ↔ i.importer ∈ known ∧ i.importee ∈ known := by
+  simp [skipImportEdge]
+
+theorem skipImportEdge_false_of_mem (lim : Option Nat) (known : List Str) (i : ImportRec)
+    (h1 : i.importer ∈ known) (h2 : i.importee ∈ known) : skipImportEdge lim known i = false := by
+  simp [skipImportEdge, h1, h2]
+
+theorem skipImportEdge_congr (lim : Option Nat) (known known' : List Str) (i : ImportRec)
+    (h : ∀ s, s ∈ known ↔ s ∈ known') : skipImportEdge lim known i = skipImportEdge lim known' i := by
+  have hc : ∀ s, known.contains s = known'.contains s := by
+    intro s
+    rw [Bool.eq_iff_iff]
+    simp only [List.contains_iff_mem]
+    exact h s
+  unfold skipImportEdge
+  rw [hc, hc]
+
+theorem mem_knownModules (mods : List Str) (s : Str) :
+    s ∈ knownModules mods ↔ s ∈ mods ∨ ∃ m ∈ mods, s ∈ parentModules m := by
+  simp [knownModules, List.mem_flatMap]
+
+/-- the unguarded loop body (what `addImport` was before the repair; still what it is without a level limit or
+    for an import between known modules) -/
+def addImport₀ (lim : Option Nat) (g : PGraph Str) (i : ImportRec) : PGraph Str :=
+  let g := createEdge lim g i.importer i.importee false
+  let g := addHierarchy lim g (parentModules i.importer) i.importer
+  (consecutive (i.importeeParents ++ [i.importee])).foldl
+    (fun g pc => createEdge lim g pc.1 pc.2 true) g
+
+theorem addImport_none (known : List Str) (g : PGraph Str) (i : ImportRec) :
+    addImport none known g i = addImport₀ none g i := rfl
+
+theorem addImport_of_not_skip (lim : Option Nat) (known : List Str) (g : PGraph Str) (i : ImportRec)
+    (h : skipImportEdge lim known i = false) : addImport lim known g i = addImport₀ lim g i := by
+  unfold addImport addImport₀
+  rw [h]
+  rfl
+
+theorem addImport_none_fun (known : List Str) : addImport none known = addImport₀ none := by
+  funext g i; rfl
+
+/-- the first stage of `addImport` -/
+theorem addImport_nodes_first (lim : Option Nat) (known : List Str) (g : PGraph Str) (i : ImportRec) :
+    (if skipImportEdge lim known i then g else createEdge lim g i.importer i.importee false).nodes = g.nodes := by
+  split
+  · rfl
+  · exact createEdge_nodes lim g _ _ false
+
 end BuildGen
 end Pta
